@@ -63,6 +63,7 @@ def _layout(data):
     else:
         lay["pool_spans"] = []
     lay["zone_fields"] = [f for f in fields if f["id"] == 1]
+    lay["idmap"] = simio.scan_id_map(data, fields, pool)
     lay["other_fields"] = [f for f in fields if f["id"] not in (0, 1)]
     b = {0, 1, 2, 3, 4, len(data), len(data) - 1}
     for f in fields:
@@ -162,12 +163,53 @@ def _gen_inflate(rng, fi, data, lay):
     return plan, [reg] * len(plan)
 
 
+def _gen_idmap(rng, fi, data, lay):
+    """Reference-table mutations on the alias map (pairs of string references): copy one entry's key or target reference
+    over another entry's reference of the same byte length - alias -> alias, alias cycles, self-aliases, duplicate keys,
+    dangling targets. At most 4 substituted bytes, so inside the stated fault space."""
+    es = lay["idmap"]
+    if len(es) < 2:
+        return None
+    kind = rng.choice(["val=key", "cycle", "self", "dupkey", "val=val", "key=val"])
+    for _ in range(50):
+        a, b = rng.sample(es, 2)
+        subs = []
+
+        def copy(dst0, dst1, src0, src1):
+            if dst1 - dst0 != src1 - src0:
+                return False
+            for i in range(dst1 - dst0):
+                if data[dst0 + i] != data[src0 + i]:
+                    subs.append(["sub", dst0 + i, data[src0 + i]])
+            return True
+
+        ok = {
+            "val=key": lambda: copy(a["v0"], a["v1"], b["k0"], b["k1"]),
+            "cycle": lambda: copy(a["v0"], a["v1"], b["k0"], b["k1"]) and copy(b["v0"], b["v1"], a["k0"], a["k1"]),
+            "self": lambda: copy(a["v0"], a["v1"], a["k0"], a["k1"]),
+            "dupkey": lambda: copy(a["k0"], a["k1"], b["k0"], b["k1"]),
+            "val=val": lambda: copy(a["v0"], a["v1"], b["v0"], b["v1"]),
+            "key=val": lambda: copy(a["k0"], a["k1"], b["v0"], b["v1"]),
+        }[kind]()
+        if ok and 1 <= len(subs) <= 4:
+            return subs, ["idmap-" + kind] * len(subs)
+    return None
+
+
 def gen_corruption(seed):
     rng = random.Random(seed)
     fs = files()
     fi = 0 if rng.random() < 0.6 else 1
     data, lay = fs[fi], _LAYOUT[fi]
-    if rng.random() < 0.10:
+    c0 = rng.random()
+    if 0.10 <= c0 < 0.17:
+        r = _gen_idmap(rng, fi, data, lay)
+        if r is not None:
+            return {
+                "prop": PROP, "seed": seed, "mode": "corrupt", "file": fi, "plan": r[0], "regions": r[1],
+                "all_ids": False, "extra_ids": rng.randrange(0, 3), "ids_seed": rng.randrange(1 << 30), "tracemalloc": False,
+            }  # fmt: skip
+    if c0 < 0.10:
         plan, regions = _gen_inflate(rng, fi, data, lay)
         return {
             "prop": PROP, "seed": seed, "mode": "corrupt", "file": fi, "plan": plan, "regions": regions,
@@ -243,10 +285,31 @@ def tier_layout(tier, master_seed):
             pts |= {rng.randrange(len(fs[fi])) for _ in range(300 if tier == "quick" else 100)}
             truncs += [(fi, t) for t in sorted(pts) if t < len(fs[fi])]
         n_corrupt = 3400 if tier == "quick" else 600
-    n = len(corp) + len(truncs) + n_corrupt
+    # tail sweep: small marker values and continuation bytes on each of the last bytes of (a sample of) zone bodies - the
+    # only way to drive the lazily run zone decoder into end-of-data, since a zone body is its own little stream
+    sweep = []
+    rng2 = random.Random(master_seed ^ 0x7A11)
+    for fi in (0, 1):
+        zf = _LAYOUT[fi]["zone_fields"]
+        sample = zf if tier == "thorough" else rng2.sample(zf, min(len(zf), 14))
+        for f in sample:
+            for back in range(1, 11):
+                off = f["end"] - back
+                if off <= f.get("body_start", f["data_start"]):
+                    continue
+                for v in (0, 1, 2, 3, 0x80, 0xFF):
+                    if fs[fi][off] != v:
+                        sweep.append((fi, off, v))
+    n = len(corp) + len(truncs) + len(sweep) + n_corrupt
 
     def case(k):
         rs = derive_seed(master_seed, PROP, k)
+        if len(corp) + len(truncs) <= k < len(corp) + len(truncs) + len(sweep):
+            fi, off, v = sweep[k - len(corp) - len(truncs)]
+            return {"prop": PROP, "seed": rs, "mode": "sweep", "file": fi, "plan": [["sub", off, v]], "regions": ["zone-tail-sweep"],
+                    "all_ids": False, "extra_ids": 0, "ids_seed": 3, "tracemalloc": False}  # fmt: skip
+        if k >= len(corp) + len(truncs) + len(sweep):
+            return gen_corruption(rs)
         if k < len(corp):
             c = corp[k]
             return {"prop": PROP, "seed": rs, "mode": "corpus", "file": c["file"], "plan": c["plan"], "regions": ["corpus"],
@@ -256,7 +319,7 @@ def tier_layout(tier, master_seed):
             return gen_trunc(truncs[k][0], truncs[k][1], rs)
         return gen_corruption(rs)
 
-    return n, case, len(corp) + len(truncs)
+    return n, case, len(corp) + len(truncs) + len(sweep)
 
 
 _CASE = None
@@ -365,6 +428,13 @@ def _choose_ids(spec, loaded_ids, ctl):
             if hit:
                 canon_hit.add(zid)
     loaded = set(loaded_ids)
+    # damage inside the alias map: the aliases whose entries were touched (their keys may be unchanged, so they would not
+    # show up as new ids), and the ids they pointed at
+    for e in lay.get("idmap", []):
+        if any(e["k0"] <= off < e["v1"] for off in damaged):
+            for nm in (e["key"], e["val"]):
+                if nm in loaded:
+                    chosen.append(nm)
     for zid in sorted(canon_hit):
         if zid in loaded:
             chosen.append(zid)
